@@ -118,6 +118,11 @@ def push_plumbing(chk, fx, rule="push-plumbing"):
         chk.expect(len(uses) >= 2 and (pv in news or any(pv in n for n in news)), rule, f"apply_push_{ty}_impl", "new-element-value", f"PrimitiveValue::from({pv})", news, loc=C.fn_loc(h))
 
 
+def Budget_diverges(n):
+    from .budget import Budget
+    return Budget.diverges(n)
+
+
 def presence_gates(body, is_write, slot_re):
     """[(write node, 'present'|'missing'|'any'|'conflict')]: under which presence of the target does each write site of `body` run?
     Conditions come from enclosing `if` branches and from earlier `if c { return .. }` statements of the enclosing blocks; a condition
@@ -398,8 +403,24 @@ def run(chk, tier):
         txt = " && ".join(H.show(c, 7) for c in conds)
         eq = any(H.kind(y) == "bin" and y[2] == "Eq" and "items.len()" in H.show(y, 5) and "item" in H.show(y[4], 4) + H.show(y[3], 4) for c in conds for y in H.walk(c))
         loose = any(H.kind(y) == "bin" and y[2] in ("Le", "Lt", "Ge", "Gt", "Ne") and "items.len()" in H.show(y, 5) for c in conds for y in H.walk(c))
-        chk.expect(eq and not loose and "is_constructive()" in txt, "constructive-gate", "apply", "append-only-next-item",
+        # both tests must hold: they are conjuncts (`&&` / nested ifs), never alternatives, and `is_constructive()` is not negated
+        has_or = any(H.kind(y) == "bin" and y[2] == "Or" for c in conds for y in H.walk(c))
+        negated = any(H.kind(y) == "un" and y[2] == "Not" and "is_constructive()" in H.show(y[3], 5) for c in conds for y in H.walk(c))
+        chk.expect(eq and not loose and not has_or and not negated and "is_constructive()" in txt, "constructive-gate", "apply", "append-only-next-item",
                    "push guarded by `items.len() == item && action.is_constructive()`", txt[:200], loc=f"{ha['loc']['f']}:{n[1]}")
+    # a missing sequence is created only for tags that can be sequences: the refusal needs the VR to be neither SQ nor UN
+    vr_ifs = [x for x in H.walk(ha["body"]) if H.kind(x) == "if" and "VR::SQ" in H.show(x[2], 6) and "VR::UN" in H.show(x[2], 6)]
+    chk.expect(len(vr_ifs) == 1 and re.fullmatch(r"\(\(vr Ne \S*VR::SQ\) And \(vr Ne \S*VR::UN\)\)", H.show(vr_ifs[0][2], 6)) is not None and Budget_diverges(vr_ifs[0][3]),
+               "constructive-gate", "apply", "created-sequence-vr", "if vr != SQ && vr != UN { return Err(NotASequence) }", [H.show(x[2], 6) for x in vr_ifs], loc=C.fn_loc(ha))
+    # Set / Replace put the given value under the element's VR; only an *empty* value for an *SQ* element becomes an empty sequence -- in
+    # both branches (existing element, new element) of apply_change_value_impl alike
+    hcv = fx.method("dicom_object", IM, "apply_change_value_impl")
+    sq_ifs = [x for x in H.walk(hcv["body"]) if H.kind(x) == "if" and "VR::SQ" in H.show(x[2], 6)]
+    conds = [H.show(x[2], 6) for x in sq_ifs]
+    okc = len(sq_ifs) == 2 and all(re.fullmatch(r"\(\(vr Eq \S*VR::SQ\) And new_value\.is_empty\(\)\)", c) for c in conds)
+    oke = len(sq_ifs) == 2 and all("DataSetSequence" in H.show(x[3], 6) and "new_value" in H.show(x[4], 6) and "DataSetSequence" not in H.show(x[4], 6) for x in sq_ifs)
+    chk.expect(okc and oke, "presence-semantics", "apply_change_value_impl", "value-kept-unless-empty-SQ", "both branches: if vr == SQ && new_value.is_empty() { empty sequence } else { Value::from(new_value) }",
+               conds, loc=C.fn_loc(hcv))
     chk.note("nested navigation in apply/entry_at_mut does not reset the recorded length of intermediate items: documented limitation of "
              "ExplicitLengthSqItemStrategy::NoChange (parser/src/dataset/write.rs), not claimed")
     # Push* actions delegate to PrimitiveValue::extend_*: "push appends" needs every arm there to keep the existing values first
